@@ -33,7 +33,7 @@ func runVisitorStateless(p *Prog, r *Report) {
 			if f == nil || fname(f) != "VisitAll" || len(call.Args) != 2 {
 				return true
 			}
-			lit, ok := ast.Unparen(call.Args[1]).(*ast.FuncLit)
+			lit, ok := comparatorLit(fn, call.Args[1])
 			if !ok {
 				r.Add("E12.visitor-stateless", fn.Name, "VisitAll callback", p.Pos(call), Undecided, "callback is not a function literal", true)
 				return true
